@@ -1,5 +1,6 @@
 // c15_num.cpp - PhQ::Print(x) / PhQ::ParseNumber<T>: digit count, notation choice, lossless round
 // trip. usage: c15_num <float|double|longdouble> <part> <nparts>
+#include <cerrno>
 #include <PhQ/Base.hpp>
 
 #include "vf.hpp"
@@ -69,7 +70,11 @@ static void check(T x) {
   const bool should_fixed = (q * 1000 >= 1) && (q < 10000);
   if (should_fixed == sh.scientific) return fail(should_fixed ? "scientific-inside-fixed-interval" : "fixed-outside-fixed-interval");
   if ((x < 0) != (s[0] == '-')) return fail("sign");
+  // parsing is a function of the text: whatever an unrelated earlier call left in errno (alternating here) must not matter
+  static unsigned alternate = 0;
+  errno = (alternate++ & 1) ? ERANGE : 0;
   const std::optional<T> back = PhQ::ParseNumber<T>(s);
+  errno = 0;
   if (!back.has_value()) return fail("does-not-parse-back");
   if (!vf::same_bits(back.value(), x)) return fail("parses-back-to-a-different-number");
   vf::stat("nontrivial_numbers");
